@@ -1,7 +1,7 @@
 #!/bin/bash
 # usage: one_seed.sh <patch> <pkg> <harness-regexp> [tier] — one.sh on /repo with a seeded change applied (reverted afterwards)
 cd /repo || exit 9
-git diff --quiet || { echo "repo dirty"; exit 9; }
+[ -z "$(git status --porcelain)" ] || { echo "repo dirty"; exit 9; }
 git apply "$1" || { echo "patch does not apply"; exit 9; }
 /verif/run/one.sh "$2" "$3" "${4:-quick}" "${5:-600}"
-git -C /repo checkout -- .
+git -C /repo checkout -- . && git -C /repo clean -fdq
